@@ -225,12 +225,29 @@ def run(ck):
             spellings = ["inc/x.h", "./inc/x.h", "inc//x.h", "inc/./x.h", "inc/deep/../x.h", "lnk/x.h", "inc/y.h", "./lnk/../inc/x.h"]
             chosen = rng.sample(spellings, rng.randrange(2, 5))
             (cwd / "main.h").write_text("".join('#include "%s"\n' % s for s in chosen) + "int end_marker;\n")
-            rc, so, se = iglib.sh([str(bdir / "bin" / "parse_file"), "-E", "main.h"], cwd=str(cwd), timeout=60)
-            cnt = len(re.findall(r"\bint once_marker ?;", so))
+            # half of the time the header is first named on the command line (under any spelling, also an absolute one through the link)
+            first = []
+            if n % 2:
+                links = ["lnk/x.h", "inc/y.h", str(cwd / "lnk" / "x.h"), str(cwd / "inc" / "y.h"), "./lnk/x.h"]
+                first = [rng.choice(links if n % 4 == 1 else spellings)]
+                if not any(c in ("inc/x.h", "./inc/x.h", "inc//x.h", "inc/./x.h") for c in chosen):
+                    chosen.append("inc/x.h")
+                    (cwd / "main.h").write_text("".join('#include "%s"\n' % s for s in chosen) + "int end_marker;\n")
+                chosen = first + chosen
+            if first:
+                # through interrogate: a class defined in the header is seen twice ("conflicting definition") if the file is read twice
+                (cwd / "inc" / "x.h").write_text("#pragma once\nint once_marker;\nclass OnceCls {\n__published:\n  int fx();\n};\n")
+                rc, so, se = iglib.sh([str(bdir / "bin" / "interrogate"), "-D__cplusplus", "-oc", "o.cxx", "-od", "o.in", "-module", "m", "-library", "l", "-c", "-fnames"] + first + ["main.h"],
+                                      cwd=str(cwd), timeout=60)
+                cnt = 1 if rc == 0 and "conflicting" not in se and "redefin" not in se else 2
+            else:
+                rc, so, se = iglib.sh([str(bdir / "bin" / "parse_file"), "-E", "main.h"], cwd=str(cwd), timeout=60)
+                cnt = len(re.findall(r"\bint once_marker ?;", so))
             ck.search_case("once-only")
             ck.corr_case("once-only", chosen, cnt == 1, detail="marker appears %d times" % cnt, feature="spellings=%d" % len(chosen))
             if cnt != 1:
-                ck.violation("once-only", "a #pragma once header included as %s contributes its declarations %d times" % (chosen, cnt), {"main.h": (cwd / "main.h").read_text()})
+                ck.violation("once-only", "a #pragma once header %sincluded as %s contributes its declarations %d times" % ("named on the command line as %s and " % first[0] if first else "", chosen[len(first):], cnt),
+                             {"main.h": (cwd / "main.h").read_text(), "x.h": (cwd / "inc" / "x.h").read_text(), "layout.txt": "cwd/inc/x.h; cwd/lnk -> inc; cwd/inc/y.h -> x.h\n"}, se[-800:])
     finally:
         os.chdir(cwd_save) if "cwd_save" in dir() else None
         shutil.rmtree(wd, ignore_errors=True)
